@@ -194,7 +194,9 @@ async fn apply_version(
             }
         }
         if let Some(o) = svr_op {
-            if let Err(e) = apply::apply_op(txn, &o).await {
+            // An operation that is invalid in the current state is ignored, but a failure of
+            // the storage backend must end the sync.
+            if let Some(e) = apply::try_apply_op(txn, &o).await? {
                 warn!("Invalid operation when syncing: {e} (ignored)");
             }
             transformed_server_ops.push(o);
